@@ -148,6 +148,9 @@ func init() {
 		externals["reflect.ValueOf"] = func(fr *frame, args []value) value {
 			return reflVal{args[0].(iface)}
 		}
+		externals["(reflect.Value).Pointer"] = func(fr *frame, args []value) value { return uintptr(0) }
+		externals["runtime.FuncForPC"] = func(fr *frame, args []value) value { var nilf *value; return nilf }
+		externals["(*runtime.Func).Name"] = func(fr *frame, args []value) value { return "" }
 		externals["(reflect.Value).IsNil"] = func(fr *frame, args []value) value {
 			rv, ok := args[0].(reflVal)
 			if !ok {
